@@ -1,9 +1,13 @@
 """C08 — RQA line statistics are exact run-length counts of the matrix.
 
 proof  : lean/Pyunicorn/Properties/C08.lean (kernel = run-length specification,
-         accounting identities, sequential = matrix)
-tie    : exact correspondence of the Lean model with the compiled kernels at the
-         kernel boundary and with RecurrencePlot at the object level
+         accounting identities, sequential = matrix with the on-the-fly predicate
+         computed, bootstrap invariants for every draw stream) -- since round 3 about
+         the kernel / wrappers / metric / bootstrap loop REGENERATED from numerics.pyx
+         by translate/gen_C08.py (Generated/StructC08.lean)
+tie    : translator (every run) + exact correspondence of the regenerated kernels
+         with the compiled ones at the kernel boundary (matrix, sequential, missing
+         values, fed random streams) and with RecurrencePlot at the object level
 search : independent run-length counter on rows / diagonals of
          `recurrence_matrix()`, matrix mode vs sequential mode, scalar measures
 """
@@ -103,7 +107,12 @@ def run(ctx):
     ctx.rule = ("kernel level: all symmetric unit-diagonal 0/1 matrices up to "
                 f"{'4x4' if quick else '5x5'} + random (also asymmetric) 0/1 matrices, all/ random "
                 "missing masks; object level: Kuratowski-embedded series realising those matrices, "
-                "sparse_rqa on/off; distinct = distinct (kernel, n, matrix, mask); "
+                "sparse_rqa on/off; round 3: the four sequential kernels on dyadic embeddings (NaN "
+                "coordinates, thresholds equal to a distance, 2^+-20..300 rescalings, C / Fortran / "
+                "strided buffers), NaN series with missing_values on in both modes, embedding, both float "
+                "widths, N = 1, 2, all-black / all-white, l_min != v_min, minimum lengths up to N + 1, "
+                "resampled_dist given, bootstrap on fed and free random streams; "
+                "distinct = distinct (kernel, n, matrix, mask); "
                 "non-trivial = matrix has both colours off the diagonal")
     ctx.proofs()
 
@@ -256,6 +265,10 @@ def run(ctx):
                 for lmin in (1, 2, 3):
                     check_scalars(ctx, rp, n, expd, expv, expw, lmin, ts)
 
+    sequential_kernels(ctx, K, rng, nprng, quick)
+    layouts(ctx, K, rng, nprng, quick)
+    objects_round3(ctx, RecurrencePlot, rng, nprng, quick)
+    bootstrap(ctx, K, RecurrencePlot, rng, nprng, quick)
     scalar_correspondence(ctx)
 
     # ---------------- sequential vs matrix on generic float data ----------
@@ -287,6 +300,457 @@ def run(ctx):
 
 
 SCAL = []   # (request, {measure: implementation value}) for the model correspondence
+
+
+# --------------------------------------------------------------------------
+# round 3
+# --------------------------------------------------------------------------
+
+def frac(x):
+    return Fraction(float(x))
+
+
+def enc_q(q):
+    q = Fraction(q)
+    return str(q.numerator) if q.denominator == 1 else f"{q.numerator}/{q.denominator}"
+
+
+def enc_vmat(E):
+    return ";".join(",".join("nan" if x != x else enc_q(frac(x)) for x in row) for row in E) or "-"
+
+
+def sup_matrix(E, eps):
+    """independent of the model: exact supremum distances (NaN coordinates are skipped, as
+    `tmp_diff > diff` is false on NaN), strict comparison with the threshold"""
+    n = len(E)
+    R = [[0] * n for _ in range(n)]
+    fe = Fraction(float(eps))
+    for a in range(n):
+        for b in range(n):
+            d = Fraction(0)
+            for x, y in zip(E[a], E[b]):
+                if x != x or y != y:
+                    continue
+                t = abs(frac(x) - frac(y))
+                if t > d:
+                    d = t
+            R[a][b] = int(d < fe)
+    return R
+
+
+def mv_cells_rows(R, M):
+    n = len(R)
+    return [[(bool(R[a][b]), bool(M[a] or M[b])) for b in range(n)] for a in range(n)]
+
+
+def mv_cells_diags(R, M):
+    n = len(R)
+    return [[(bool(R[d + j][j]), bool(M[d + j] or M[j])) for j in range(n - d)]
+            for d in range(n - 1, 0, -1)]
+
+
+def dyadic_embedding(rng, n, dim, with_nan):
+    den = rng.choice([1, 2, 4, 8])
+    hi = rng.choice([2, 4, 9])
+    E = np.array([[rng.randrange(0, hi * den) / den for _ in range(dim)] for _ in range(n)],
+                 dtype=np.float64).reshape(n, dim)
+    if with_nan:
+        for a in range(n):
+            if rng.random() < 0.25:
+                E[a, rng.randrange(dim)] = np.nan
+    return E, den
+
+
+def sequential_kernels(ctx, K, rng, nprng, quick):
+    """all four `_*_sequential*` kernels at the kernel boundary on float32-exact (dyadic) data,
+    incl. thresholds equal to a distance, NaN coordinates, exact power-of-two rescalings:
+    (a) against the kernels regenerated from the source (Lean driver), (b) against an exact
+    Fraction recurrence matrix + run-length count (independent of the model)."""
+    reqs, impl, metas = [], [], []
+    todo = []
+    for n in (0, 1, 2):
+        for dim in (1, 2):
+            todo.append((n, dim))
+    for _ in range(160 if quick else 1500):
+        todo.append((rng.choice([2, 3, 3, 4, 5, 6, 8, 11, 17] + ([] if quick else [30, 45])),
+                     rng.choice([1, 1, 2, 3])))
+    for n, dim in todo:
+        for with_nan in (False, True):
+            E, den = dyadic_embedding(rng, n, dim, with_nan)
+            eps = rng.choice([0, 1, 2, 3, 5]) / den if rng.random() < 0.8 else \
+                -rng.choice([0, 1]) / den
+            sc = rng.choice([0, 0, 0, 20, -20, 100, -100, 300, -300])
+            if sc:
+                E = E * 2.0 ** sc
+                eps = eps * 2.0 ** sc
+            M = np.isnan(E).sum(axis=1) != 0 if n else np.zeros(0, dtype=bool)
+            if rng.random() < 0.3 and n:
+                M = M | (nprng.rand(n) < 0.2)     # the kernel takes any mask
+            kinds = [("vertline_seq", K._vertline_dist_sequential, False),
+                     ("diagline_seq", K._diagline_dist_sequential, False),
+                     ("vertline_seq_mv", K._vertline_dist_sequential_missingvalues, True),
+                     ("diagline_seq_mv", K._diagline_dist_sequential_missingvalues, True)]
+            Rex = sup_matrix(E.tolist(), eps)
+            for name, fn, mv in kinds:
+                hist = np.zeros(n, dtype=np.int32)
+                Ec = np.ascontiguousarray(E).reshape(n, dim)
+                lay = rng.choice(["C", "F", "strided"])
+                if lay == "F":
+                    Ec = np.asfortranarray(Ec)
+                elif lay == "strided" and n:
+                    big = np.full((2 * n, 2 * dim), 7.25)
+                    big[::2, ::2] = Ec
+                    Ec = big[::2, ::2]
+                try:
+                    if mv:
+                        fn(n, hist, M.astype(bool), Ec, float(eps), dim)
+                    else:
+                        fn(n, hist, Ec, float(eps), dim)
+                    got = enc_vec(hist)
+                except Exception as e:  # noqa
+                    got = "raise:" + type(e).__name__
+                req = f"{name} {n} {dim} {enc_vmat(E.tolist())} {enc_q(frac(eps))}"
+                if mv:
+                    req += " " + enc_vec(M)
+                reqs.append(req)
+                impl.append(got)
+                ctx.count(f"kernel:{name}")
+                ctx.count(f"seq:layout={lay}")
+                if sc:
+                    ctx.count("seq:rescaled=2^%d" % sc)
+                ctx.case((name, n, dim, E.tobytes().hex(), float(eps), M.tobytes().hex()),
+                         n >= 2, {"kernel": name, "n": n, "E": E.tolist(), "eps": float(eps)}
+                         if n <= 3 else None)
+                if mv:
+                    cells = mv_cells_rows(Rex, M) if name.startswith("vert") else \
+                        mv_cells_diags(Rex, M)
+                    exp = oracle_lines_mv(cells, n)
+                else:
+                    exp = oracle_hist(rows(Rex, 1) if name.startswith("vert") else
+                                      lower_diags(Rex), n)
+                if got != enc_vec(exp):
+                    ctx.fail({"kind": "kernel", "kernel": name},
+                             f"{name} kernel differs from the run-length count of the exactly "
+                             "thresholded supremum distances",
+                             {"kernel": name, "n": n, "dim": dim, "E": E.tolist(),
+                              "eps": float(eps), "M": M.tolist(), "expected": exp, "observed": got})
+    ctx.correspond("kernels regenerated from numerics.pyx (StructC08) == compiled sequential "
+                   "kernels", reqs, impl)
+
+
+def layouts(ctx, K, rng, nprng, quick):
+    """matrix kernels on Fortran-ordered / strided recurrence matrices and masks (the typed
+    buffers accept any strides): same histogram as on the C-contiguous copy"""
+    for _ in range(60 if quick else 400):
+        n = rng.randrange(1, 14)
+        R = (nprng.rand(n, n) < rng.choice([0.3, 0.6])).astype(np.int8)
+        M = (nprng.rand(n) < 0.25)
+        big = np.ones((2 * n, 3 * n), dtype=np.int8)
+        big[::2, ::3] = R
+        bigM = np.ones(2 * n, dtype=bool)
+        bigM[::2] = M
+        variants = {"F": (np.asfortranarray(R), M), "strided": (big[::2, ::3], bigM[::2])}
+        for nm, fn, mv in (("vertline", K._vertline_dist, False), ("diagline", K._diagline_dist, False),
+                           ("whitevertline", K._white_vertline_dist, False),
+                           ("vertline_mv", K._vertline_dist_missingvalues, True),
+                           ("diagline_mv", K._diagline_dist_missingvalues, True)):
+            ref = np.zeros(n, dtype=np.int32)
+            if mv:
+                fn(n, ref, np.ascontiguousarray(R), np.ascontiguousarray(M))
+            else:
+                fn(n, ref, np.ascontiguousarray(R))
+            for lay, (Rv, Mv) in variants.items():
+                h = np.zeros(n, dtype=np.int32)
+                try:
+                    if mv:
+                        fn(n, h, Rv, Mv)
+                    else:
+                        fn(n, h, Rv)
+                except Exception as e:  # noqa
+                    ctx.fail({"kind": "kernel-layout", "kernel": nm, "error": type(e).__name__},
+                             f"{nm} raised {type(e).__name__} on a {lay} array",
+                             {"kernel": nm, "layout": lay, "R": enc_mat(R)})
+                    continue
+                ctx.count(f"layout:{lay}")
+                ctx.case(("layout", nm, lay, R.tobytes().hex(), M.tobytes().hex()), n >= 2)
+                if not np.array_equal(h, ref):
+                    ctx.fail({"kind": "kernel-layout", "kernel": nm},
+                             f"{nm} on a {lay} array differs from the contiguous copy",
+                             {"kernel": nm, "layout": lay, "R": enc_mat(R), "M": M.tolist(),
+                              "contiguous": ref.tolist(), "observed": h.tolist()})
+
+
+def objects_round3(ctx, RecurrencePlot, rng, nprng, quick):
+    """object level beyond round 2: missing values (NaN samples) in both storage modes incl. the
+    white lines, embedding (dim, tau), both float widths, N = 1, 2, all-black / all-white,
+    l_min != v_min, w_min, l_min up to N + 1, recurrence_rate / recurrence_probability /
+    rqa_summary, scalar methods with `resampled_dist` given."""
+    eps_ = 1e-8
+    for c in range(70 if quick else 600):
+        kind = rng.choice(["nan", "nan", "plain", "embed", "tiny", "black", "white"])
+        if kind == "tiny":
+            n = rng.choice([1, 2])
+        else:
+            n = rng.randrange(3, 16 if quick else 40)
+        den = rng.choice([2, 4, 8])
+        dim = rng.choice([1, 1, 2])
+        if kind == "black":
+            ts = np.full((n, dim), 0.5)
+        elif kind == "white":
+            ts = np.arange(n * dim, dtype=float).reshape(n, dim) * 4
+        else:
+            ts = np.array([[rng.randrange(0, 3 * den) / den for _ in range(dim)] for _ in range(n)])
+        thr = rng.choice([1, 2, 3]) / den
+        mv = kind == "nan"
+        if kind == "nan":
+            for a in range(n):
+                if rng.random() < 0.2:
+                    ts[a, rng.randrange(dim)] = np.nan
+            if rng.random() < 0.2:
+                ts[n - 1, 0] = np.nan
+            if rng.random() < 0.2:
+                ts[0, 0] = np.nan
+        kw = {}
+        if kind == "embed" and n >= 6:
+            ts = ts[:, :1]
+            kw = {"dim": rng.choice([2, 3]), "tau": rng.choice([1, 2])}
+        dt = rng.choice([np.float32, np.float64])
+        arr = np.asfortranarray(ts.astype(dt)) if rng.random() < 0.3 else ts.astype(dt)
+        res = {}
+        for sparse in (False, True):
+            try:
+                rp = RecurrencePlot(arr.copy(), metric="supremum", threshold=thr, missing_values=mv,
+                                    sparse_rqa=sparse, silence_level=3, **kw)
+                res[sparse] = (rp, list(map(int, rp.diagline_dist())),
+                               list(map(int, rp.vertline_dist())))
+            except Exception as e:  # noqa
+                ctx.fail({"kind": "object", "method": "construct/line_dist", "sparse_rqa": sparse,
+                          "error": type(e).__name__},
+                         f"RecurrencePlot line histograms raised {type(e).__name__}: {e}",
+                         {"time_series": ts.tolist(), "threshold": thr, "missing_values": mv,
+                          "kwargs": kw})
+        if len(res) < 2:
+            continue
+        rp, d, v = res[False]
+        N = rp.N
+        replay = {"time_series": ts.tolist(), "dtype": np.dtype(dt).name, "threshold": thr,
+                  "missing_values": mv, "kwargs": kw}
+        ctx.count(f"object3:{kind}")
+        ctx.case(("obj3", kind, ts.tobytes().hex(), thr, str(kw), np.dtype(dt).name), N >= 2)
+        R = np.array(rp.recurrence_matrix())
+        Mk = np.isnan(np.asarray(rp.embedding)).sum(axis=1) != 0 if mv else np.zeros(N, dtype=bool)
+        if mv:
+            expv = oracle_lines_mv(mv_cells_rows(R, Mk), N)
+            expd = [2 * x for x in oracle_lines_mv(mv_cells_diags(R, Mk), N)]
+        else:
+            expv = oracle_hist(rows(R, 1), N)
+            expd = [2 * x for x in oracle_hist(lower_diags(R), N)]
+        expw = oracle_hist(rows(R, 0), N)
+        w = list(map(int, rp.white_vertline_dist()))
+        for sparse in (False, True):
+            _, dd, vv = res[sparse]
+            for nm, got, exp in (("diagline_dist", dd, expd), ("vertline_dist", vv, expv)):
+                if got != exp:
+                    ctx.fail({"kind": "object", "method": nm, "sparse_rqa": sparse,
+                              "missing_values": mv},
+                             f"{nm}(sparse_rqa={sparse}, missing_values={mv}) differs from the "
+                             "run-length count of the recurrence matrix",
+                             dict(replay, expected=exp, observed=got))
+        if w != expw:
+            ctx.fail({"kind": "object", "method": "white_vertline_dist", "missing_values": mv},
+                     "white_vertline_dist differs from the run-length count of the non-recurrence "
+                     "points", dict(replay, expected=expw, observed=w))
+        ar = np.arange(1, N + 1)
+        if int(ar @ np.array(w)) != int(N * N - R.sum()):
+            ctx.fail({"kind": "object", "method": "accounting-white"},
+                     "white lines do not account for every non-recurrence point", replay)
+        if not mv and (int(ar @ np.array(v)) != int(R.sum())
+                       or int(ar @ np.array(d)) != int(R.sum() - np.trace(R))):
+            ctx.fail({"kind": "object", "method": "accounting"},
+                     "histograms do not account for every recurrence point exactly once", replay)
+        # recurrence rate / probability / summary, both modes
+        rr_exp = R.sum() / N ** 2
+        for sparse in (False, True):
+            rps = res[sparse][0]
+            try:
+                rr = float(rps.recurrence_rate())
+            except Exception as e:  # noqa
+                ctx.fail({"kind": "object", "method": "recurrence_rate", "sparse_rqa": sparse,
+                          "error": type(e).__name__}, f"recurrence_rate raised {e}", replay)
+                continue
+            if abs(rr - rr_exp) > 1e-12:
+                ctx.fail({"kind": "object", "method": "recurrence_rate", "sparse_rqa": sparse,
+                          "missing_values": mv, "series_has_nan": bool(Mk.any())},
+                         f"recurrence_rate(sparse_rqa={sparse}, missing_values={mv}) = {rr}, "
+                         f"the recurrence matrix has rate {rr_exp}",
+                         dict(replay, expected=float(rr_exp), observed=rr))
+            lm, vm = rng.choice([(1, 3), (3, 1), (2, 4), (N + 1, 2), (2, N)])
+            lm, vm = max(1, lm), max(1, vm)
+            try:
+                sm = rps.rqa_summary(lm, vm)
+                parts = {"RR": rps.recurrence_rate(), "DET": rps.determinism(lm),
+                         "L": rps.average_diaglength(lm), "LAM": rps.laminarity(vm)}
+            except Exception as e:  # noqa
+                ctx.fail({"kind": "object", "method": "rqa_summary", "sparse_rqa": sparse,
+                          "error": type(e).__name__},
+                         f"rqa_summary({lm}, {vm}) raised {type(e).__name__}: {e}",
+                         dict(replay, l_min=lm, v_min=vm))
+                continue
+
+            def psum(h, m):
+                return sum((i + 1) * h[i] for i in range(m - 1, len(h)))
+
+            def pcnt(h, m):
+                return sum(h[i] for i in range(m - 1, len(h)))
+            form = {"RR": parts["RR"], "DET": psum(expd, lm) / (psum(expd, 1) + eps_),
+                    "L": psum(expd, lm) / (pcnt(expd, lm) + eps_),
+                    "LAM": psum(expv, vm) / (psum(expv, 1) + eps_)}
+            ctx.count("object3:rqa_summary(l_min!=v_min)")
+            for k in ("RR", "DET", "L", "LAM"):
+                if not (abs(float(sm[k]) - float(parts[k])) <= 1e-12 and
+                        abs(float(sm[k]) - form[k]) <= 1e-9 * max(1.0, abs(form[k]))):
+                    ctx.fail({"kind": "object", "method": "rqa_summary", "entry": k,
+                              "sparse_rqa": sparse},
+                             f"rqa_summary({lm},{vm})[{k}] = {sm[k]}, stated function gives {form[k]}",
+                             dict(replay, l_min=lm, v_min=vm))
+        for lag in {0, 1, N - 1, rng.randrange(0, N)}:
+            if lag < 0 or lag >= N:
+                continue
+            try:
+                got = float(rp.recurrence_probability(lag))
+            except Exception as e:  # noqa
+                ctx.fail({"kind": "object", "method": "recurrence_probability",
+                          "error": type(e).__name__}, f"recurrence_probability({lag}) raised {e}",
+                         dict(replay, lag=lag))
+                continue
+            exp = sum(int(R[a][a + lag]) for a in range(N - lag)) / (N - lag)
+            if abs(got - exp) > 1e-12:
+                ctx.fail({"kind": "object", "method": "recurrence_probability"},
+                         f"recurrence_probability({lag}) = {got}, diagonal {lag} has rate {exp}",
+                         dict(replay, lag=lag))
+        # scalar methods with minimum lengths up to N + 1 and with `resampled_dist` given
+        for lmin in {1, 2, N, N + 1}:
+            if lmin >= 1:
+                check_scalars(ctx, rp, N, expd, expv, expw, lmin, ts)
+        given_dist(ctx, rp, N, rng, replay)
+
+
+GIVEN = (("d", "ratio:determinism", "determinism"), ("d", "avg:average_diaglength", "average_diaglength"),
+         ("d", "entropy:diag_entropy", "diag_entropy"), ("v", "ratio:laminarity", "laminarity"),
+         ("v", "avg:average_vertlength", "average_vertlength"), ("v", "avg:trapping_time", "trapping_time"),
+         ("v", "entropy:vert_entropy", "vert_entropy"))
+
+
+def given_dist(ctx, rp, N, rng, replay):
+    """determinism / average_diaglength / diag_entropy / laminarity / average_vertlength /
+    trapping_time / vert_entropy with `resampled_dist` given: the same functions of THAT histogram
+    (model correspondence through SCAL + the stated formulas)"""
+    eps = 1e-8
+    h = np.array([rng.choice([0, 0, 1, 2, 5, 40]) for _ in range(N)], dtype=np.int32)
+    lmin = rng.choice([1, 2, 2, 3, N, N + 1])
+    impl = {}
+    for _, tag, nm in GIVEN:
+        try:
+            impl[tag] = float(getattr(rp, nm)(lmin, resampled_dist=h.copy()))
+        except Exception as e:  # noqa
+            ctx.fail({"kind": "scalar-given", "method": nm, "error": type(e).__name__},
+                     f"{nm}({lmin}, resampled_dist=...) raised {type(e).__name__}: {e}",
+                     dict(replay, l_min=lmin, resampled_dist=h.tolist()))
+            return
+    SCAL.append((f"scalars {lmin} " + (",".join(str(int(x)) for x in h) or "-"), impl))
+    ctx.count("scalar:resampled_dist-given")
+    ps = sum((i + 1) * int(h[i]) for i in range(lmin - 1, N))
+    pc = sum(int(h[i]) for i in range(lmin - 1, N))
+    full = sum((i + 1) * int(h[i]) for i in range(N))
+    hh = np.array([x for x in h[lmin - 1:] if x], dtype=float)
+    p = hh / (hh.sum() + eps) if hh.size else hh
+    exp = {"ratio": ps / (full + eps), "avg": ps / (pc + eps),
+           "entropy": float(-(p * np.log(p)).sum()) if hh.size else 0.0}
+    for tag, got in impl.items():
+        e = exp[tag.split(":")[0]]
+        if not abs(got - e) <= 1e-9 * max(1.0, abs(e)):
+            ctx.fail({"kind": "scalar-given", "method": tag.split(":")[1]},
+                     f"{tag.split(':')[1]}({lmin}, resampled_dist=h) = {got}, stated function of h "
+                     f"gives {e}", dict(replay, l_min=lmin, resampled_dist=h.tolist()))
+
+
+class DrawProxy:
+    """stands in for the module global `random` of the compiled numerics module: feeds a prepared
+    stream of values of random.random()"""
+
+    def __init__(self, draws):
+        self.draws, self.used = list(draws), 0
+
+    def random(self):
+        if self.used >= len(self.draws):
+            raise RuntimeError("draw stream exhausted")
+        v = self.draws[self.used]
+        self.used += 1
+        return float(v)
+
+
+def bootstrap(ctx, K, RecurrencePlot, rng, nprng, quick):
+    """resample_diagline_dist / resample_vertline_dist / rejection_sampling:
+    (a) fed draw streams (10-bit dyadic values: the products u*N and the comparisons with
+        h/S are decided exactly in double) against the loop regenerated from the source;
+    (b) the library's own random stream: count / support / length invariants (independent of
+        the model)."""
+    import random as pyrandom
+    reqs, impl = [], []
+    for c in range(60 if quick else 500):
+        n = rng.randrange(2, 14)
+        den = rng.choice([2, 4])
+        ts = np.array([rng.randrange(0, 3 * den) / den for _ in range(n)])
+        kind = rng.choice(["plain", "plain", "white", "black"])
+        if kind == "white":
+            ts = np.arange(n, dtype=float) * 8
+        if kind == "black":
+            ts = np.zeros(n)
+        rp = RecurrencePlot(ts, threshold=rng.choice([1, 2]) / den, silence_level=3)
+        M = rng.choice([0, 1, 3, 10, 40])
+        for which in ("diag", "vert"):
+            hist = [int(x) for x in (rp.diagline_dist() if which == "diag" else rp.vertline_dist())]
+            meth = getattr(rp, f"resample_{which}line_dist")
+            nz = [i for i, x in enumerate(hist) if x]
+            L = max(nz) + 1 if nz else 0
+            replay = {"time_series": ts.tolist(), "threshold": rp.threshold, "M": M,
+                      "method": f"resample_{which}line_dist", "hist": hist}
+            # (b) real random stream
+            try:
+                out = [int(x) for x in meth(M)]
+            except Exception as e:  # noqa
+                ctx.fail({"kind": "bootstrap", "method": replay["method"], "error": type(e).__name__},
+                         f"{replay['method']}({M}) raised {type(e).__name__}: {e}", replay)
+                continue
+            ctx.count(f"bootstrap:{which}:free")
+            ctx.case(("boot", which, ts.tobytes().hex(), rp.threshold, M), L > 0)
+            ok = len(out) == len(hist) and all(o == 0 for o, h in zip(out, hist) if h == 0) and \
+                (out == hist if L == 0 else sum(out) == M)
+            if not ok:
+                ctx.fail({"kind": "bootstrap", "method": replay["method"]},
+                         f"{replay['method']}({M}): resampled histogram breaks count / support / "
+                         "length invariants", dict(replay, observed=out))
+            # (a) fed stream
+            pairs = [(Fraction(rng.randrange(0, 1024), 1024), Fraction(rng.randrange(0, 1024), 1024))
+                     for _ in range(6 * M + 4)]
+            if nz:
+                pairs += [(Fraction(nz[0], L), Fraction(0))] * M      # guaranteed acceptances
+            proxy = DrawProxy([u for pr in pairs for u in pr])
+            old = K.random
+            try:
+                K.random = proxy
+                got = [int(x) for x in meth(M)]
+                ans = f"{enc_vec(got)} {proxy.used // 2}"
+            except Exception as e:  # noqa
+                ans = "raise:" + type(e).__name__
+            finally:
+                K.random = old
+            reqs.append(f"resample {M} {enc_vec(hist)} " +
+                        (";".join(f"{enc_q(a)},{enc_q(b)}" for a, b in pairs) or "-"))
+            impl.append(ans)
+            ctx.count(f"bootstrap:{which}:fed")
+    ctx.correspond("bootstrap loop regenerated from numerics.pyx + resample model == "
+                   "resample_*line_dist on fed draw streams", reqs, impl)
 
 
 def scalar_correspondence(ctx):
